@@ -1,4 +1,5 @@
 pub mod core;
+pub mod gen;
 pub mod layout;
 pub mod props;
 pub mod registry;
